@@ -35,7 +35,7 @@ def run(ctx, report):
     report.structural_section("wrap (shape)", "R-E2E 'rows' / 'reread' on the folded SCC documents: every row <= 32 columns, broken at spaces only "
                               "(lines of exactly 32 and 33 characters, long words, a word longer than a row)", wrap, ctx, report)
     report.section("timecode", timecode, ctx, report, folder)
-    report.structural_section("pre-roll (symbolic form)", "R-E2E 'visible' (every caption after the first becomes visible within three "
+    report.structural_section("pre-roll (symbolic form)", "R-E2E 'visible' (every caption becomes visible within three "
                               "frames of its start, on generated caption sets incl. cues of five and more rows)", preroll, ctx, report, folder)
     report.section("header", header, ctx, report, folder)
     report.section("word shape", word_shape, ctx, report, folder)
@@ -47,11 +47,11 @@ def run(ctx, report):
         "reread": ("R-E2E", "3", "a reference line-21 decoder shows one caption per input caption with the same words in the "
                                  "same order (a word longer than 32 columns is split)"),
         "timecodes": ("R-E2E", "4", "time codes are non-negative and non-decreasing"),
-        "visible": ("R-E2E", "4", "every caption after the first becomes visible within three frames of its start"),
+        "visible": ("R-E2E", "4", "every caption becomes visible within three frames of its start (the first one whenever there is room to transmit it before its start)"),
         "stamp": ("R-E2E", "4", "_format_timestamp: the time code is the number of whole frames of non-drop-frame time "
                                 "(every quarter frame of 70 s, and around the minute/hour carries)"),
     })
-    report.not_decided += ["'visible within three frames' beyond the generated spacings; the first cue (never pre-rolled)",
+    report.not_decided += ["'visible within three frames' beyond the generated spacings",
                            "re-read by pycaption's own SCC reader (C05 decides the reader against the same reference)"]
 
 
@@ -177,9 +177,9 @@ def wrap(ctx, report):
         if k.arg == "width" and isinstance(k.value, ast.Constant):
             width = k.value.value
     other_kw = [k.arg for k in f.keywords if k.arg != "width"]
-    report.check(width == cea608.SCREEN_COLUMNS and not other_kw, "R-TABLE-REF", (fn, f),
-                 "rows are wrapped at 32 columns with textwrap's default breaking rules",
-                 {"width": width, "other_options": other_kw}, "3")
+    # (what the options do to the rows - hyphens, long words - is decided on the folded documents; here: the width)
+    report.recognise(width == cea608.SCREEN_COLUMNS and set(other_kw) <= {"break_on_hyphens"}, "R-TABLE-REF", (fn, f),
+                     "rows are wrapped at 32 columns", {"width": width, "other_options": other_kw}, "3")
     # unconditional: the fill call is the element of a comprehension without condition, or a bypass `len(x) <= 32`
     comp = [n for n in walk_no_nested(fn.node) if isinstance(n, ast.ListComp)]
     detail = {}
@@ -302,17 +302,17 @@ def preroll(ctx, report, folder):
     # the emitted line uses the pre-rolled start
     st = [n for n in walk_no_nested(fn.node) if isinstance(n, ast.Assign) and isinstance(n.targets[0], ast.Subscript)
           and src(n.targets[0]) == "codes[index]"]
-    ok = len(st) == 1 and src(st[0].value) == "(code, code_start, end)"
-    report.check(ok, "R-FIELD-ROUTING", fn, "each caption is transmitted from its pre-rolled start", [short(s) for s in st], "4")
-    if len(st) == 1:
-        from ..core.astutil import enclosing_conjuncts
-        dom = enclosing_conjuncts(fn, st[0]) or []
-        first_excluded = any(d.replace(" ", "") in ("not(index==0)", "index>0", "index!=0", "index>=1") for d in dom)
-        report.check(first_excluded, "R-GUARD", (fn, st[0]),
-                     "the first caption is not pre-rolled (its start is never moved before the beginning of the file)",
-                     {"store_runs_under": dom,
-                      "why": None if first_excluded else "start - load time of the first caption can be negative: the "
-                                                         "timecode formatter then prints a malformed (negative) stamp"}, "4")
+    ok = len(st) >= 1 and all(src(x.value) == "(code, code_start, end)" for x in st)
+    report.recognise(ok, "R-FIELD-ROUTING", fn, "each caption is transmitted from its pre-rolled start", [short(s) for s in st], "4")
+    # a pre-rolled start is never negative: the store for the first caption (nothing precedes it) runs only when its
+    # pre-rolled start does not lie before the beginning of the file
+    from ..core.astutil import enclosing_conjuncts
+    first = [x for x in st if any(d.replace(" ", "") == "index==0" for d in (enclosing_conjuncts(fn, x) or []))]
+    for x in first:
+        dom = [d.replace(" ", "") for d in (enclosing_conjuncts(fn, x) or [])]
+        report.check(any(re.fullmatch(r".*start.*>=?0|0<=?.*start.*", d) for d in dom), "R-GUARD", (fn, x),
+                     "the first caption is pre-rolled only when that does not take it before the beginning of the file",
+                     {"store_runs_under": dom, "why": "a negative start makes the time-code formatter print a malformed stamp"}, "4")
 
 
 def header(ctx, report, folder):
@@ -533,17 +533,17 @@ def preroll(ctx, report, folder):
     # the emitted line uses the pre-rolled start
     st = [n for n in walk_no_nested(fn.node) if isinstance(n, ast.Assign) and isinstance(n.targets[0], ast.Subscript)
           and src(n.targets[0]) == "codes[index]"]
-    ok = len(st) == 1 and src(st[0].value) == "(code, code_start, end)"
-    report.check(ok, "R-FIELD-ROUTING", fn, "each caption is transmitted from its pre-rolled start", [short(s) for s in st], "4")
-    if len(st) == 1:
-        from ..core.astutil import enclosing_conjuncts
-        dom = enclosing_conjuncts(fn, st[0]) or []
-        first_excluded = any(d.replace(" ", "") in ("not(index==0)", "index>0", "index!=0", "index>=1") for d in dom)
-        report.check(first_excluded, "R-GUARD", (fn, st[0]),
-                     "the first caption is not pre-rolled (its start is never moved before the beginning of the file)",
-                     {"store_runs_under": dom,
-                      "why": None if first_excluded else "start - load time of the first caption can be negative: the "
-                                                         "timecode formatter then prints a malformed (negative) stamp"}, "4")
+    ok = len(st) >= 1 and all(src(x.value) == "(code, code_start, end)" for x in st)
+    report.recognise(ok, "R-FIELD-ROUTING", fn, "each caption is transmitted from its pre-rolled start", [short(s) for s in st], "4")
+    # a pre-rolled start is never negative: the store for the first caption (nothing precedes it) runs only when its
+    # pre-rolled start does not lie before the beginning of the file
+    from ..core.astutil import enclosing_conjuncts
+    first = [x for x in st if any(d.replace(" ", "") == "index==0" for d in (enclosing_conjuncts(fn, x) or []))]
+    for x in first:
+        dom = [d.replace(" ", "") for d in (enclosing_conjuncts(fn, x) or [])]
+        report.check(any(re.fullmatch(r".*start.*>=?0|0<=?.*start.*", d) for d in dom), "R-GUARD", (fn, x),
+                     "the first caption is pre-rolled only when that does not take it before the beginning of the file",
+                     {"store_runs_under": dom, "why": "a negative start makes the time-code formatter print a malformed stamp"}, "4")
 
 
 def header(ctx, report, folder):
